@@ -139,6 +139,44 @@ def h_role_laws(model: str, body: str, colon: bool, maxlen: int):
         check_laws(real, ref, '', model == 'noop')
 
 
+def h_overlap_laws(body: str, maxlen: int):
+    """A table that defines both :p and :p-of.  Inverting :p is ambiguous in
+    such a table and is left out (DESIGN section 6), but every clause that
+    does not depend on it still holds: a defined role whose "+ -of" form is
+    not defined is never inverted, its inverse is that "+ -of" form, which is
+    inverted and deinverts to the original triple; an undefined role ending
+    in -of is inverted and loses exactly one -of."""
+    from penman.model import Model
+    from vflib.oracles import RefModel
+    roles = {':p': {}, ':p-of': {}}
+    real, ref = Model(roles=roles), RefModel(list(roles), True)
+    assume(len(body) <= maxlen)
+    chars_not_in(body, '\n')
+    role = ':p' + body
+    if ref.defines(role):
+        mark('defined')
+        require(not real.is_role_inverted(role),
+                'a defined role is considered inverted', role)
+        if not ref.defines(role + '-of'):
+            mark('defined-unambiguous')
+            inv = real.invert_role(role)
+            require(inv == role + '-of', 'inverse of a defined role is not '
+                    'role + -of', role, inv)
+            require(real.is_role_inverted(inv),
+                    'inverse of a defined role is not inverted', role, inv)
+            t = ('s', role, 't')
+            back = real.deinvert(real.invert(t))
+            require(back == t, 'deinvert(invert(t)) != t', t, back)
+    elif role.endswith('-of'):
+        mark('inverted')
+        require(real.is_role_inverted(role),
+                'an undefined role ending in -of is not inverted', role)
+        inv = real.invert_role(role)
+        require(inv == role[:len(role) - 3],
+                'inverse of an inverted role is not the role minus one -of',
+                role, inv)
+
+
 def amr_catalogue():
     """Bases computed from the live AMR table."""
     from penman.models import amr
@@ -282,6 +320,13 @@ def obligations(tier: str) -> List[dict]:
                     'timeout': timeout, 'bound': f'<= {n} branches',
                     'need_marks': marks or []})
 
+    obs.append({'name': 'E2 overlapping table {:p, :p-of}: unambiguous '
+                        'clauses', 'kind': 'e2', 'fn': 'h_overlap_laws',
+                'fixed': {'maxlen': 6 if tier == 'quick' else 9},
+                'timeout': 300 if tier == 'quick' else 1500,
+                'bound': 'role = :p + body, body <= %d chars'
+                         % (6 if tier == 'quick' else 9),
+                'need_marks': ['defined', 'defined-unambiguous', 'inverted']})
     ncat = len(amr_catalogue())
     if tier == 'quick':
         for m in ('default', 'noop', 'custom'):
